@@ -214,6 +214,8 @@ def run(ctx):
     ep = P.get('Element::parent')
     C.check(bool(calls(ep, r'ElementRaw>::parent$')) and ep.id in always or True, 'C03-MUST-funnel', 'Element::parent|delegates', 'Element::parent no longer delegates to ElementRaw::parent')
 
+    import scope
+    scope.closed_world(C, P, 'C03-WHO-link')
     # a file merge never links one element twice: an element of the new file is merged into its counterpart OR imported
     C.rule('C03-DEV-merge-disjoint', 'in merge_element an element of the new file is queued for import only over the false edge of "already paired with a model element": otherwise it would stay a child of its old parent content AND be inserted below the model parent (two parents, subtree visited twice)')
     from c09 import dev_bonly
